@@ -54,6 +54,17 @@ func plan(tier string, seed int64) []driver.Case {
 					cases = append(cases, driver.Case{ID: fmt.Sprintf("op/%s/h%d/%s/%s", e.Name, h, sc.String(), m),
 						P: map[string]string{"kind": "op", "entry": e.Name, "hostile": fmt.Sprint(h), "script": sc.String(), "mode": m}})
 				}
+				// a producer that, on top of its script, panics: in its subscribe function after playing, or in the
+				// teardown it returned (which runs inside Subscribe when the script ended the subscription) - one more
+				// notification after the terminal, to be discarded like the others
+				if e.Name == "Bare" {
+					for _, m := range modes {
+						for _, f := range []string{"subscribe-panics", "teardown-panics"} {
+							cases = append(cases, driver.Case{ID: fmt.Sprintf("op/%s/h%d/%s/%s/%s", e.Name, h, sc.String(), m, f),
+								P: map[string]string{"kind": "op", "entry": e.Name, "hostile": fmt.Sprint(h), "script": sc.String(), "mode": m, "fault": f}})
+						}
+					}
+				}
 			}
 		}
 	}
@@ -159,6 +170,12 @@ func runOp(c driver.Case) driver.Result {
 			}
 		}
 		o = run.Opts{Entry: e0, Scripts: scripts, Mode: c.Get("mode")}
+		switch c.Get("fault") {
+		case "subscribe-panics":
+			o.Tweak = func(_ int, s *src.Source) { s.PanicInSubscribe = "the subscribe function panics after playing its script" }
+		case "teardown-panics":
+			o.Tweak = func(_ int, s *src.Source) { s.PanicInTeardown = "the teardown of the producer panics" }
+		}
 	}
 	res := run.Seq(o)
 	defer res.Cleanup()
@@ -176,7 +193,7 @@ func runOp(c driver.Case) driver.Result {
 		r.Msg = fmt.Sprintf("%s: Subscribe panicked: %v", name, res.Panic)
 		return r
 	}
-	if !grammar(res.Rec, "C01/"+fam+"/delivery-after-terminal", fmt.Sprintf("%s over hostile script [%s] (%s)", name, c.Get("script"), c.Get("mode")), &r) {
+	if !grammar(res.Rec, "C01/"+fam+"/delivery-after-terminal", fmt.Sprintf("%s over hostile script [%s] (%s%s)", name, c.Get("script"), c.Get("mode"), c.Get("fault")), &r) {
 		return r
 	}
 	// conservation on the bare observable: issued = delivered + dropped (by emission tag)
